@@ -266,7 +266,7 @@ def h_legacy_array(c0: int, c1: int, w0: int, run: int, vary_run: bool) -> bool:
 _CU = (-1, 0, 9, 15, 16, 17, 255)
 
 
-def h_compass(y: int, x: int, ui: int, l: int, d: int) -> bool:
+def h_compass(y: int, x: int, ui: int, l: int, d: int, r_known: bool) -> bool:
     """
     compass.to_puzz_link_url / parse_puzz_link_url on the declared H x W board with two clue cells (the second one in the
     last cell); numbers -1 (absent), one and two hex digits
@@ -274,7 +274,7 @@ def h_compass(y: int, x: int, ui: int, l: int, d: int) -> bool:
     pre: 0 <= ui < 7 and -1 <= l <= 1 and -1 <= d <= 0
     post: _
     """
-    u, r, y2, x2 = _CU[ui], 3, H - 1, W - 1
+    u, r, y2, x2 = _CU[ui], (3 if r_known else -1), H - 1, W - 1      # (all four numbers of a compass may be unknown)
     m = _mod("compass")
     pos = [(y, x, u, l, d, r), (y2, x2, 1, -1, 2, -1)]
     url = m.to_puzz_link_url(H, W, pos)
